@@ -16,11 +16,20 @@ Definition case := (Z * list op * list out)%type.
 Definition case_ok (c : case) : bool :=
   let '(t, ops, obs) := c in list_eqb out_eqb (snd (run (init t) ops)) obs.
 
-(* non-trivial: the history changed the store at least once and ends with a non-empty list *)
+(* non-trivial: the history changed the store at least twice (judged on the entry the operation names, or on
+   the list sizes for prune: linear in the size of the store, so that histories over a thousand ids stay cheap) *)
+Definition op_id (o : op) : option N :=
+  match o with
+  | ODeny i _ | OAllow i _ | OIsDenied i | HDeny i _ | HAllow i _ | HSession _ i _ => Some i
+  | _ => None
+  end.
+
 Definition changes (s : st) (o : op) : bool :=
   let s' := fst (step s o) in
-  negb (list_eqb N.eqb (sortN (keys (denyl s))) (sortN (keys (denyl s')))
-        && list_eqb N.eqb (sortN (keys (allowl s))) (sortN (keys (allowl s')))).
+  match op_id o with
+  | Some i => negb (option_eqb Z.eqb (lk i (denyl s)) (lk i (denyl s')) && option_eqb Z.eqb (lk i (allowl s)) (lk i (allowl s')))
+  | None => negb (Nat.eqb (length (denyl s)) (length (denyl s')) && Nat.eqb (length (allowl s)) (length (allowl s')))
+  end.
 
 Fixpoint nchanges (s : st) (ops : list op) : N :=
   match ops with [] => 0 | o :: r => (if changes s o then 1 else 0) + nchanges (fst (step s o)) r end.
